@@ -57,6 +57,11 @@ def run_rule_cases(variant, groups, wd, name, flags=0, extra_lines_before=(), ha
             cur["ok"] = False
         elif e == "ScanCall":
             cur["scans"].append({})
+            cur.setdefault("chains", []).append({})
+        elif e == "ChainCb" and cur.get("chains"):
+            # hook H7: one record per chain (keyed by the index of its head), the calls in the order they were made
+            ch = cur["chains"][-1].setdefault(ev["head"], {"n": ev["n"], "gaps": ev["gaps"], "cbs": []})
+            ch["cbs"].append({"p": ev["p"], "off": ev["off"], "len": ev["len"], "unc": ev["unc"], "conf": ev["conf"]})
         elif e == "Cb" and ev["msg"] in ("match", "nomatch") and cur["scans"]:
             strs = {}
             for s in ev.get("strings", []):       # the pieces of a chained string share its identifier
